@@ -92,7 +92,7 @@ def make_special_case(rng, kind):
     return None
 
 
-def make_kinematics(rng, case):
+def make_kinematics(rng, case, scale=1):
     """external momenta (exactly conserved, dyadic), masses, a spanning tree with its fundamental signature and the
     tree routing of the external momenta"""
     edges, D = case["edges"], case["D"]
@@ -108,8 +108,11 @@ def make_kinematics(rng, case):
         ext_mom[ext[-1]] = [-t for t in tot]
     elif len(ext) == 1:
         ext_mom[ext[0]] = [Fraction(0)] * D
+    # overall scale of all dimensionful quantities (a power of two: exact); every property is homogeneous in it
+    sc = Fraction(scale)
+    ext_mom = {v: [t * sc for t in p] for v, p in ext_mom.items()}
     shifts = kin.route_externals(edges, tree, ext_mom, D)
-    masses = [Fraction(rng.randint(1, 12), 4) if m else Fraction(0) for m in case["massive"]]
+    masses = [Fraction(rng.randint(1, 12), 4) * sc if m else Fraction(0) for m in case["massive"]]
     return dict(S=S, tree=tree, ext_mom=ext_mom, masses=masses, shifts=shifts)
 
 
@@ -147,8 +150,26 @@ def make_routing(rng, case, variant="random", kinem=None):
                 max_sig=max(abs(v) for r in S3 for v in r))
 
 
-def point(rng, dim, kind="uniform"):
+def point(rng, dim, kind="uniform", n_edges=None):
+    """x-space point. Layout for E edges: u_0, xi_0, u_1, xi_1, ..., (2E-2 numbers), lambda coordinate, then (radius, angle) pairs."""
     xs = [rng.random() for _ in range(dim)]
+    E = n_edges
+    xi_slots = list(range(1, 2 * E - 2, 2)) if E and E >= 2 else []
+    if kind == "tiny_xi" and xi_slots:
+        # legal coordinates far below 2^-52 (a clamp to f64::EPSILON, a guard against 'singular' input, ... would change the parameters)
+        for i in rng.sample(xi_slots, min(len(xi_slots), rng.randint(1, 2))):
+            xs[i] = 10.0 ** -rng.uniform(17, 300) if rng.random() < 0.8 else 5e-324
+    elif kind == "zero_xi" and xi_slots:
+        i = rng.choice(xi_slots)
+        xs = [min(max(x, 5e-324), 1 - 2.0 ** -53) for x in xs]
+        xs[i] = 0.0
+        return xs
+    elif kind == "angles" and E:
+        for i in range(2 * E - 1, dim):
+            if (i - (2 * E - 1)) % 2 == 1 and rng.random() < 0.7:
+                xs[i] = rng.choice([0.0, 0.25, 0.5, 0.75, 0.125, 0.375])
+        xs = [min(max(x, 0.0), 1 - 2.0 ** -53) for x in xs]
+        return xs
     if kind == "corner":
         for i in range(dim):
             c = rng.random()
@@ -179,7 +200,7 @@ def build_tables(cases):
 
 
 def generate(ctx, n_graphs, pts, max_e=6, max_loops=3, kinds=("uniform", "uniform", "corner", "edge1"), variant="random",
-             routings_per_graph=1, names=None, mass_mode=None, special=(), ext_modes=None):
+             routings_per_graph=1, names=None, mass_mode=None, special=(), ext_modes=None, scales=(1,)):
     """returns list of dict(case, routing, table, xs, req, kind); `special` = kinds of make_special_case to append"""
     rng = ctx.rng
     cases = []
@@ -196,13 +217,13 @@ def generate(ctx, n_graphs, pts, max_e=6, max_loops=3, kinds=("uniform", "unifor
     for c, b in zip(cases, built):
         if b.get("status") != "ok":
             ctx.count("sample.graph_rejected_by_impl"); continue
-        kinem = make_kinematics(rng, c)
+        kinem = make_kinematics(rng, c, scale=rng.choice(scales))
         routings = [make_routing(rng, c, "fundamental" if (k == 0 and routings_per_graph > 1) else
                                  ("face" if gen.face_basis(c.get("name", ""), c["edges"]) is not None and rng.random() < 0.7 else variant), kinem)
                     for k in range(routings_per_graph)]
         for i in range(pts):
             kind = kinds[i % len(kinds)]
-            xs = point(rng, b["numVars"], kind)
+            xs = point(rng, b["numVars"], kind, n_edges=len(c["edges"]))
             for k, routing in enumerate(routings):
                 out.append(dict(case=c, routing=routing, table=b["table"], built=b, xs=xs, kind=kind, group=(id(c), i),
                                 routing_index=k, req=sample_request(c, routing, b["table"], xs)))
